@@ -30,7 +30,12 @@ match: is_big
 category: Large
 subcategory: L
 '''
-RULES_B = '''[NetB]
+RULES_B = '''[PfxB]
+match: startswith("PFX")
+category: Prefixed
+subcategory: P
+
+[NetB]
 match: regex("net.lix") or contains("ORD") and any(r.id == extract("ORD(\\\\d+)") for r in orders)
 let: ref = "zz"
 category: OtherSubs
@@ -64,6 +69,10 @@ OPS = [('load', 'a.rules'), ('load', 'b.rules'), ('load', 'c.csv'), ('load', 'br
 DIRECTED = [
     [('load', 'a.rules'), ('classify', 0), ('rewrite', 'a.rules', 'b.rules'), ('load', 'a.rules'), ('classify', 0), ('classify', 2)],
     [('eval', '(ref2 := "wire") == "wire"', 0), ('load', 'b.rules'), ('classify', 3), ('classify', 1)],
+    # the order the explain / discover / diag commands load in: transforms first, then the rules
+    [('load', 'a.rules'), ('classify', 0), ('rewrite', 'a.rules', 'b.rules'), ('load_transforms_first', 'a.rules'), ('classify', 0), ('classify', 2)],
+    [('load', 'a.rules'), ('load_transforms_first', 'b.rules'), ('classify', 0)],
+    [('load', 'b.rules'), ('load_transforms_first', 'a.rules'), ('classify', 0)],
     [('load', 'a.rules'), ('classify', 0), ('load', 'b.rules'), ('classify', 3)],
     [('load', 'a.rules'), ('classify', 0), ('load', 'b.rules'), ('classify', 0), ('classify', 1)],
     [('eval', 'regex("^\\D+$")', 2), ('eval', 'regex("^\\d+$")', 2), ('eval', 'regex("^\\D+$")', 2)],
@@ -95,6 +104,11 @@ for op in ops:
         open(p, 'w').write(open(os.path.join(tmp, op[2])).read())
         os.utime(p, ns=(st.st_atime_ns, st.st_mtime_ns))
         out.append(['rewritten'])
+    elif op[0] == 'load_transforms_first':
+        p = os.path.join(tmp, op[1]) if op[1] else None
+        state['transforms'] = mu.get_transforms(p)
+        state['rules'] = mu.get_all_rules(p)
+        out.append(['loaded', len(state['rules'])])
     elif op[0] == 'load':
         p = os.path.join(tmp, op[1]) if op[1] else None
         state['rules'] = mu.get_all_rules(p)
@@ -148,8 +162,8 @@ def check_history(hist):
         if op[0] == 'rewrite':
             content[op[1]] = op[2]
             continue
-        if op[0] == 'load':
-            last_load = ['load', content.get(op[1], op[1])] if op[1] else op
+        if op[0] in ('load', 'load_transforms_first'):
+            last_load = ['load', content.get(op[1], op[1])] if op[1] else ['load', None]
             continue
         want = cold(last_load, op)
         if got[i] != want:
